@@ -95,11 +95,11 @@ Example branch_hypotheses_satisfiable :
   frag_cond ex_cond = true /\
   (exists s', build_branch ex_cond 0 2 3 (mkB ex_graph 0) = BOk tt s' /\ length (bs_blocks s') = 8) /\
   opn ex_graph 0 /\ exit_idx < length ex_graph /\
-  eval_truth test_oracle ex_cond st0 = Done (false, (fst st0, [Ev 1 [VInt 0] (VBool true)])).
+  (exists st', eval_truth test_oracle ex_cond st0 = Done (false, st')).
 Proof.
   split. { reflexivity. }
   split. { eexists; split; vm_compute; reflexivity. }
   split. { unfold opn; simpl; repeat split; auto. }
   split. { unfold exit_idx; simpl; repeat constructor. }
-  vm_compute. reflexivity.
+  eexists. vm_compute. reflexivity.
 Qed.
